@@ -128,7 +128,8 @@ def apply_pattern(element, pat):
             i = cands[(pat["cpos"] * len(cands)) // 4 % len(cands)]
             file_level = items[i][0] == "/begin" and items[i + 1][0] == "PROJECT"
             items[i][1] = max(1, items[i][1])
-            items.insert(i, [COMMENTS[pat["cmt"]], 1, False])
+            # (every second pattern indents the comment: the real tokenizer keeps the leading blanks in the comment token)
+            items.insert(i, [("    " if pat["cpos"] % 2 == 1 else "") + COMMENTS[pat["cmt"]], 1, False])
     out = []
     for i, (t, g, _) in enumerate(items):
         if i > 0:
